@@ -233,6 +233,9 @@ Proof.
   - inv_step H; auto.
   - inv_step H; auto.
   - (* StartupHandler *) inv_step H; cbn; auto.
+  - (* Signal *) inv_step H; cbn; auto; intros t0 Ht0;
+      match goal with |- quiet (upd ?f ?x ?p t0) = true =>
+        destruct (upd_cases f x p t0) as [[-> ->]|[? ->]]; [discriminate Ht0 | now apply Hq] end.
 Qed.
 
 Lemma Inv_quiet_init : Inv_quiet init.
@@ -941,3 +944,144 @@ Proof.
   apply andb_true_iff in E as [_ E]. unfold finish_ready in E. apply andb_true_iff in E as [_ E].
   unfold all_done in E. rewrite forallb_forall in E. apply E. apply filter_In. auto.
 Qed.
+
+(* ------------------------------------------------------------------ 10. the stop flag is honoured at every moment, incl. during startup *)
+
+(* "stop-flag checker" and its waiter are NOT guarded by started_flag: they run from time 0 *)
+Lemma stopper_runs_from_start : ph init (TRoot RStopper) = PRun /\ ph init TWaiter = PRun /\ guarded RStopper = false.
+Proof. repeat split. Qed.
+
+(* once the startup/cleanup task is past the point where cleanup could still follow, it never runs cleanup *)
+Definition nocleanup (s : state) : Prop := (exists o, act s = AStopCore (Some o)) \/ act s = AEnd.
+
+Lemma nocleanup_step : forall s l s', nocleanup s -> step s l = Some s' -> nocleanup s'.
+Proof.
+  intros s l s' Hn H. unfold nocleanup in *.
+  destruct l; unfold step in H; inv_step H; use_cancel_spec; cbn in *;
+    try (match goal with Hc : act_after_cancel _ _ |- _ =>
+           unfold act_after_cancel in Hc;
+           destruct Hc as [Hc|[[Hc _]|[[Hc Hc2]|[[Hc _]|[Hc _]]]]]; rewrite Hc; eauto;
+           destruct Hn as [[? Hn]|Hn]; congruence end);
+    try (destruct Hn as [[? Hn]|Hn]; congruence);
+    eauto.
+Qed.
+
+Lemma nocleanup_run : forall tr s s', nocleanup s -> run s tr = Some s' -> nocleanup s'.
+Proof. intros tr s s' Hn H. eapply (run_inv nocleanup); eauto using nocleanup_step. Qed.
+
+(* ANY root task finishing while the startup activity runs (in particular the stop-flag checker): run_tasks cancels every
+   root, the startup task goes straight to stopping the core task, and in every continuation there is no StartupOk, no
+   Flag, no API request and no cleanup. *)
+Definition aborted_for_good (s3 : state) : Prop :=
+  act s3 = AStopCore (Some OCancelled) /\ started s3 = false /\
+  forall post s4, run s3 post = Some s4 ->
+    started s4 = false /\ ready s4 = false /\
+    ~ In StartupOk post /\ ~ In Flag post /\ ~ In CleanupBegin post /\ forall t, ~ In (Api t) post.
+
+Lemma mainstop_during_startup : forall tr s x, run init tr = Some s ->
+  mn s = MWait -> is_done (ph s (TRoot x)) = true -> act s = AStartup \/ act s = AStartupBad -> ph s (TRoot RAct) = PRun ->
+  exists s3, step s MainStop = Some s3 /\ mn s3 = MStopRoots /\ aborted_for_good s3.
+Proof.
+  intros tr s x H Hm Hd Hact HactRun.
+  assert (Ha : act s <> AFlag) by (destruct Hact as [E|E]; rewrite E; discriminate).
+  destruct (mainstop_enabled s x Hm Hd Ha) as (s3&E3&Hm3).
+  exists s3. split; [exact E3|]. split; [exact Hm3|].
+  assert (Hs0 : started s = false).
+  { destruct (Inv_sfailed_reach _ _ H) as [He _]. apply He. tauto. }
+  pose proof E3 as E3'. unfold step in E3. rewrite Hm in E3.
+  destruct (existsb (fun t => is_done (ph s t)) root_tasks); [|discriminate].
+  destruct (cancel_roots s) as [s3'|] eqn:Ec; [|discriminate]. injection E3 as <-.
+  assert (Hact3 : act s3' = AStopCore (Some OCancelled)).
+  { unfold cancel_roots, cancel_act in Ec.
+    assert (Hr : ph (set_ph s (cancel_in (ph s) other_roots)) (TRoot RAct) = PRun) by (cbn; exact HactRun).
+    rewrite Hr in Ec. change (act (set_ph s (cancel_in (ph s) other_roots))) with (act s) in Ec.
+    destruct Hact as [Hx|Hx]; rewrite Hx in Ec; injection Ec as <-; reflexivity. }
+  assert (Hst3 : started s3' = false).
+  { apply cancel_roots_spec in Ec. destruct Ec as (_&_&Hs3&_). rewrite Hs3. exact Hs0. }
+  unfold aborted_for_good. cbn. split; [exact Hact3|]. split; [exact Hst3|].
+  intros post s4 Hpost.
+  assert (Hn : noflag (set_mn s3' MStopRoots)) by (unfold noflag; cbn; rewrite Hact3; repeat split; auto; discriminate).
+  assert (Hc : nocleanup (set_mn s3' MStopRoots)) by (left; cbn; eauto).
+  destruct (noflag_run _ _ _ Hn Hpost) as (Hs4&_&_).
+  split; [exact Hs4|].
+  assert (Hall : run init (tr ++ MainStop :: post) = Some s4).
+  { rewrite run_app, H. cbn [run]. rewrite E3'. exact Hpost. }
+  split; [rewrite (ready_eq_started _ _ Hall); exact Hs4|].
+  assert (Hno : forall l, (forall a, noflag a -> nocleanup a -> step a l = None) -> ~ In l post).
+  { intros l Hl Hin. apply in_split in Hin as (p1&p2&->). apply run_split in Hpost as (a&b&Hp1&Hsa&_).
+    rewrite (Hl a (noflag_run _ _ _ Hn Hp1) (nocleanup_run _ _ _ Hc Hp1)) in Hsa. discriminate. }
+  split; [|split; [|split]].
+  - apply Hno. intros a (_&A1&A2) _. unfold step. destruct (act a); try reflexivity; contradiction.
+  - apply Hno. intros a (_&A1&A2) _. unfold step. destruct (act a); try reflexivity; contradiction.
+  - apply Hno. intros a _ [[o Ho]|Ho]; unfold step; rewrite Ho; reflexivity.
+  - intros t Hin.
+    assert (Hin' : In (Api t) (tr ++ MainStop :: post)) by (apply in_or_app; right; right; exact Hin).
+    exact (never_started_no_api _ _ Hall Hs4 t Hin').
+Qed.
+
+(* The flag-type stop triggers at ANY moment at which run_tasks still waits — in particular while the startup activity is
+   running, whatever its handlers are doing.  stop_flag: the waiter and the checker finish; OS signal: the checker
+   finishes (the waiter is left for the hung-tasks phase).  Then run_tasks reacts as above. *)
+Definition stop_reaction : list label := [StopFlag; Finish TWaiter OOk; Finish (TRoot RStopper) OOk; MainStop].
+Definition signal_reaction : list label := [Signal; Finish (TRoot RStopper) OOk; MainStop].
+
+Lemma stop_flag_any_moment : forall tr s, run init tr = Some s ->
+  mn s = MWait -> stopflag s = false -> ph s (TRoot RStopper) = PRun -> ph s TWaiter = PRun -> act s <> AFlag ->
+  exists s3, run s stop_reaction = Some s3 /\ mn s3 = MStopRoots /\
+    (act s = AStartup \/ act s = AStartupBad -> ph s (TRoot RAct) = PRun -> aborted_for_good s3).
+Proof.
+  intros tr s H Hm Hf Hst Hw Ha.
+  set (s1 := mk (ph s) (spawned s) (act s) (mn s) (started s) (ready s) true (sfailed s) (swept s) (ostopped s)
+                (asked s) (abandoned s) (graces s) (withdrawn s) (hung s)).
+  assert (E0 : step s StopFlag = Some s1) by (unfold step; rewrite Hf; reflexivity).
+  set (s2 := set_ph s1 (upd (ph s1) TWaiter (PDone OOk))).
+  assert (E1 : step s1 (Finish TWaiter OOk) = Some s2).
+  { unfold step. change (ph s1 TWaiter) with (ph s TWaiter). rewrite Hw. reflexivity. }
+  set (s2' := set_ph s2 (upd (ph s2) (TRoot RStopper) (PDone OOk))).
+  assert (E2 : step s2 (Finish (TRoot RStopper) OOk) = Some s2').
+  { unfold step. assert (Hp : ph s2 (TRoot RStopper) = PRun) by (cbn; exact Hst). rewrite Hp.
+    assert (Hq : ph s2 TWaiter = PDone OOk) by reflexivity. rewrite Hq. reflexivity. }
+  assert (Hd : is_done (ph s2' (TRoot RStopper)) = true) by reflexivity.
+  assert (Hr : run init (tr ++ [StopFlag; Finish TWaiter OOk; Finish (TRoot RStopper) OOk]) = Some s2').
+  { rewrite run_app, H. cbn [run]. rewrite E0, E1, E2. reflexivity. }
+  assert (Hpre : forall s3, step s2' MainStop = Some s3 -> run s stop_reaction = Some s3).
+  { intros s3 E3. unfold stop_reaction. cbn [run]. rewrite E0, E1, E2, E3. reflexivity. }
+  destruct (mainstop_enabled s2' RStopper Hm Hd Ha) as (s3&E3&Hm3).
+  exists s3. split; [auto|]. split; [exact Hm3|].
+  intros Hact HactRun.
+  destruct (mainstop_during_startup _ _ RStopper Hr Hm Hd Hact HactRun) as (s3x&E3x&_&Hab).
+  rewrite E3 in E3x. injection E3x as <-. exact Hab.
+Qed.
+
+Lemma signal_any_moment : forall tr s, run init tr = Some s ->
+  mn s = MWait -> ph s (TRoot RStopper) = PRun -> act s <> AFlag ->
+  exists s3, run s signal_reaction = Some s3 /\ mn s3 = MStopRoots /\
+    (act s = AStartup \/ act s = AStartupBad -> ph s (TRoot RAct) = PRun -> aborted_for_good s3).
+Proof.
+  intros tr s H Hm Hst Ha.
+  set (s1 := set_ph s (upd (ph s) (TRoot RStopper) (PEnding OOk))).
+  assert (E0 : step s Signal = Some s1) by (unfold step; rewrite Hst; reflexivity).
+  set (s2' := set_ph s1 (upd (ph s1) (TRoot RStopper) (PDone OOk))).
+  assert (E2 : step s1 (Finish (TRoot RStopper) OOk) = Some s2').
+  { unfold step. assert (Hp : ph s1 (TRoot RStopper) = PEnding OOk) by reflexivity. rewrite Hp. reflexivity. }
+  assert (Hd : is_done (ph s2' (TRoot RStopper)) = true) by reflexivity.
+  assert (Hr : run init (tr ++ [Signal; Finish (TRoot RStopper) OOk]) = Some s2').
+  { rewrite run_app, H. cbn [run]. rewrite E0, E2. reflexivity. }
+  destruct (mainstop_enabled s2' RStopper Hm Hd Ha) as (s3&E3&Hm3).
+  exists s3. split; [unfold signal_reaction; cbn [run]; rewrite E0, E2, E3; reflexivity|]. split; [exact Hm3|].
+  intros Hact HactRun.
+  assert (HactRun' : ph s2' (TRoot RAct) = PRun).
+  { cbn. exact HactRun. }
+  destruct (mainstop_during_startup _ _ RStopper Hr Hm Hd Hact HactRun') as (s3x&E3x&_&Hab).
+  rewrite E3 in E3x. injection E3x as <-. exact Hab.
+Qed.
+
+(* non-vacuity: in the middle of a slow / retrying startup the hypotheses hold *)
+Definition tr_mid_startup : list label := [StartupHandler 0 HOk; StartupHandler 1 HTemp].
+Lemma mid_startup_hyps :
+  match run init tr_mid_startup with
+  | Some s => match mn s, stopflag s, ph s (TRoot RStopper), ph s TWaiter, act s, ph s (TRoot RAct) with
+              | MWait, false, PRun, PRun, AStartup, PRun => true | _, _, _, _, _, _ => false end
+  | None => false
+  end = true.
+Proof. vm_compute. reflexivity. Qed.
